@@ -1,4 +1,5 @@
 import LopdfModel.Thm.ParseDistinct
+import LopdfModel.Thm.C08
 /-
   The object-loading pass of `Reader::read` collects distinct-keyed objects only: every object it
   stores (finished or pending) and every member of every object-stream block it records — for every
@@ -91,5 +92,161 @@ theorem loadPass_nd (buf : Bytes) (x : XTable) (n : Nat) : ∀ (l : List (Nat ×
       exact ih os1 fs1 os' fs' a b h
     | err s => rw [hs] at h; exact absurd h (foldl_loadStep_err buf x n rest _ (by intro v; simp) _)
     | panic s => rw [hs] at h; exact absurd h (foldl_loadStep_err buf x n rest _ (by intro v; simp) _)
+
+/-! ### after the pass: the merge of the blocks and the completion of pending streams -/
+
+theorem lobjects_get_mem : ∀ (os : LObjects) (id : ObjId) (o : LObj), os.get id = some o → (id, o) ∈ os := by
+  intro os
+  induction os with
+  | nil => intro id o h; simp [LObjects.get] at h
+  | cons q rest ih =>
+    intro id o h
+    obtain ⟨i, o'⟩ := q
+    simp only [LObjects.get] at h
+    split at h
+    · rename_i hi; cases h; subst hi; exact List.mem_cons_self
+    · exact List.mem_cons_of_mem _ (ih id o h)
+
+theorem mergeBlocks_nd : ∀ (blocks : List Block) (os : LObjects), LObjsND os → BlocksND blocks → LObjsND (mergeBlocks os blocks) := by
+  intro blocks os h1 h2
+  unfold mergeBlocks
+  have hm : ∀ p ∈ (blocks.map (·.2)).flatten, DeepND p.2 := by
+    intro p hp
+    obtain ⟨l, hl, hpl⟩ := List.mem_flatten.mp hp
+    obtain ⟨b, hb, rfl⟩ := List.mem_map.mp hl
+    exact h2 b hb p hpl
+  generalize (blocks.map (·.2)).flatten = ms at hm
+  induction ms generalizing os with
+  | nil => simpa using h1
+  | cons m rest ih =>
+    simp only [List.foldl_cons]
+    apply ih
+    · split
+      · exact h1
+      · intro p hp
+        rcases List.mem_append.mp hp with hp | hp
+        · exact h1 p hp
+        · simp at hp; subst hp; exact hm m List.mem_cons_self
+    · intro p hp; exact hm p (List.mem_cons_of_mem _ hp)
+
+/-- the merge of the arrived blocks (sorted by container, filtered by the cross-reference table) keeps the objects distinct-keyed,
+for ANY arrival order that only rearranges the recorded blocks -/
+theorem mergeBlocksX_nd (x : XTable) (os : LObjects) (arrived : List Block) (h1 : LObjsND os) (h2 : BlocksND arrived) :
+    LObjsND (mergeBlocksX x os arrived) := by
+  unfold mergeBlocksX
+  apply mergeBlocks_nd _ _ h1
+  intro b hb p hp
+  obtain ⟨b0, hb0, rfl⟩ := List.mem_map.mp hb
+  have hb0' : b0 ∈ arrived := (sortBlocks_perm arrived).mem_iff.mp hb0
+  simp only [filterBlock] at hp
+  exact h2 b0 hb0' p (List.mem_filter.mp hp).1
+
+theorem completeOne_nd (buf : Bytes) (os : LObjects) (id : ObjId) (h : LObjsND os) : LObjsND (completeOne buf os id) := by
+  unfold completeOne
+  split
+  · rename_i v hv
+    apply lobjsND_insert h
+    unfold completed at hv
+    split at hv
+    · rename_i d start hg
+      have hd : DictND d := h _ (lobjects_get_mem os id _ hg)
+      split at hv
+      · split at hv
+        · cases hv
+        · split at hv
+          · cases hv
+          · cases hv
+            simp only [LObjND]
+            rw [deepND_stream]
+            exact dictND_set hd _ _ (by simp [DeepND])
+      · cases hv
+    · cases hv
+  · exact h
+
+theorem foldl_completeOne_nd (buf : Bytes) : ∀ (ids : List ObjId) (os : LObjects), LObjsND os → LObjsND (ids.foldl (completeOne buf) os) := by
+  intro ids
+  induction ids with
+  | nil => intro os h; exact h
+  | cons i rest ih => intro os h; exact ih _ (completeOne_nd buf os i h)
+
+/-! ### the final object map -/
+
+theorem mem_insertSortedO (k : ObjId) (v : Obj) : ∀ (l : Objects) (p : ObjId × Obj), p ∈ insertSortedO k v l → p = (k, v) ∨ p ∈ l := by
+  intro l
+  induction l with
+  | nil => intro p h; simp [insertSortedO] at h; exact Or.inl h
+  | cons q rest ih =>
+    intro p h
+    obtain ⟨k', v'⟩ := q
+    simp only [insertSortedO] at h
+    split at h
+    · rcases List.mem_cons.mp h with h | h
+      · exact Or.inl h
+      · exact Or.inr h
+    · rcases List.mem_cons.mp h with h | h
+      · exact Or.inr (h ▸ List.mem_cons_self)
+      · rcases ih p h with h | h
+        · exact Or.inl h
+        · exact Or.inr (List.mem_cons_of_mem _ h)
+
+/-- the object map `Reader::read` returns, as a function of the loaded objects (the last lines of `loadDocWith`) -/
+def finalObjects (os2 : LObjects) : Objects :=
+  (os2.map fun (p : ObjId × LObj) =>
+    match p.2 with
+    | .plain o => (p.1, o)
+    | .pending d _ => (p.1, Obj.stream d [])).foldr (fun (p : ObjId × Obj) acc => insertSortedO p.1 p.2 acc) []
+
+theorem finalObjects_nd (os2 : LObjects) (h : LObjsND os2) : ObjsND (finalObjects os2) := by
+  intro k o hg
+  have hm := Lopdf.Ed.mem_of_get _ k o hg
+  unfold finalObjects at hm
+  have : ∀ (fin : List (ObjId × Obj)), (∀ p ∈ fin, DeepND p.2) →
+      ∀ p ∈ fin.foldr (fun (p : ObjId × Obj) acc => insertSortedO p.1 p.2 acc) [], DeepND p.2 := by
+    intro fin
+    induction fin with
+    | nil => intro _ p hp; cases hp
+    | cons q rest ih =>
+      intro hf p hp
+      simp only [List.foldr_cons] at hp
+      rcases mem_insertSortedO _ _ _ p hp with e | e
+      · rw [e]; exact hf q List.mem_cons_self
+      · exact ih (fun r hr => hf r (List.mem_cons_of_mem _ hr)) p e
+  refine this _ ?_ (k, o) hm
+  intro p hp
+  obtain ⟨q, hq, rfl⟩ := List.mem_map.mp hp
+  have hq' := h q hq
+  cases hqo : q.2 with
+  | plain o' => rw [hqo] at hq'; simpa [LObjND] using hq'
+  | pending d st => rw [hqo] at hq'; simp only [LObjND] at hq'; simp only; rw [deepND_stream]; exact hq'
+
+/-- **every object of the loaded document is distinct-keyed**: the whole object pipeline of `Reader::read` — loading pass, merge
+of the object-stream blocks in ANY arrival order that only rearranges the recorded blocks, completion of the pending streams in
+ANY order, final sort — as it stands in `loadDocWith` -/
+theorem loadedObjects_nd (buf : Bytes) (x : XTable) (n : Nat) (entries : List (Nat × XEntry)) (os : LObjects) (fs : List Block)
+    (arr : List Block → List Block) (arr2 : List ObjId → List ObjId) (harr : ∀ bs, ∀ b ∈ arr bs, b ∈ bs)
+    (h : entries.foldl (loadStep buf x n) (.ok ([], [])) = .ok (os, fs)) :
+    ObjsND (finalObjects ((arr2 (pendingIds (mergeBlocksX x os (arr fs)))).foldl (completeOne buf) (mergeBlocksX x os (arr fs)))) := by
+  obtain ⟨h1, h2⟩ := loadPass_nd buf x n entries [] [] os fs (by intro p hp; cases hp) (by intro b hb; cases hb) h
+  apply finalObjects_nd
+  apply foldl_completeOne_nd
+  apply mergeBlocksX_nd x os _ h1
+  intro b hb
+  exact h2 b (harr fs b hb)
+
+/-- **…hence every object of a document `Reader::read` returns is distinct-keyed**, for every file and every schedule that only
+rearranges the recorded blocks (the identity and the permutations of hook H1 do) -/
+theorem loadDocWith_objects_nd (arr : List Block → List Block) (arr2 : List ObjId → List ObjId) (harr : ∀ bs, ∀ b ∈ arr bs, b ∈ bs)
+    (file : Bytes) (L : Loaded) (h : loadDocWith arr arr2 file = .ok L) : ObjsND L.objects := by
+  unfold loadDocWith at h
+  simp only at h
+  repeat' split at h
+  all_goals (first | (cases h; done) | skip)
+  all_goals (cases h)
+  all_goals (exact loadedObjects_nd _ _ _ _ _ _ arr arr2 harr (by assumption))
+
+/-- the sequential reader (`loadDoc`: blocks and pending streams in recording order) -/
+theorem loadDoc_objects_nd (file : Bytes) (L : Loaded) (h : loadDoc file = .ok L) : ObjsND L.objects := by
+  unfold loadDoc loadDocOrd loadDocOrd2 at h
+  exact loadDocWith_objects_nd _ _ (by intro bs b hb; simpa using hb) file L h
 
 end Lopdf.Ed
